@@ -371,7 +371,7 @@ func cfgChoice(script [][]reply) int {
 func run4(c struct {
 	Tries  int       `json:"tries"`
 	Script [][]reply `json:"script"`
-}, extra bool) map[string]any {
+}, extra bool, inform bool) map[string]any {
 	conn := &rconn{proto: 4, script: c.Script, wake: make(chan struct{}, 1), sent: map[int][]byte{}, epoch: time.Now()}
 	opts4 := []nclient4.ClientOpt{nclient4.WithRetry(c.Tries), nclient4.WithTimeout(time.Second)}
 	ch := cfgChoice(c.Script)
@@ -417,12 +417,26 @@ func run4(c struct {
 		dhcpv4.WithRequestedOptions(dhcpv4.OptionNTPServers, dhcpv4.OptionBootfileName), dhcpv4.WithOption(dhcpv4.OptClassIdentifier("vh")))
 	res := result{Kind: "err"}
 	var lease *nclient4.Lease
+	localIP := []net.IP{net.IPv4(10, 0, 0, 77), net.IPv4(192, 168, 1, 5).To4(), net.IPv4(169, 254, 3, 4), net.IPv4(100, 64, 0, 9).To4()}[ch/256%4]
 	func() {
 		defer func() {
 			if r := recover(); r != nil {
 				res = result{Kind: "panic", Err: fmt.Sprint(r)}
 			}
 		}()
+		if inform {
+			// the one-exchange INFORM: the caller's address in ciaddr, any server's ACK ends it
+			ack, err := cl.Inform(context.Background(), localIP, userMods...)
+			switch {
+			case err == nil:
+				res = result{Kind: "ack", Final: id4(ack)}
+			case errors.Is(err, nclient4.ErrNoResponse):
+				res = result{Kind: "noresp"}
+			default:
+				res = result{Kind: "err", Err: err.Error()}
+			}
+			return
+		}
 		l, err := cl.Request(context.Background(), userMods...)
 		var nak *nclient4.ErrNak
 		switch {
@@ -437,7 +451,7 @@ func run4(c struct {
 			res = result{Kind: "err", Err: err.Error()}
 		}
 	}()
-	out := map[string]any{"proto": 4, "tries": c.Tries, "res": res, "cfg": map[string]any{"srv": srv, "mac": bs(hw), "raw": ch/128%3 == 1}}
+	out := map[string]any{"proto": 4, "tries": c.Tries, "res": res, "cfg": map[string]any{"srv": srv, "mac": bs(hw), "raw": ch/128%3 == 1, "ip": ip4(localIP)}}
 	txs := []any{}
 	for _, t := range conn.txs {
 		e := map[string]any{"dest": t.dest, "at": int(t.t / time.Second), "len": len(t.b)}
@@ -638,6 +652,7 @@ func TestLeaseSim(t *testing.T) {
 		var c struct {
 			Proto  int       `json:"proto"`
 			Rapid  bool      `json:"rapid"`
+			Inform bool      `json:"inform"`
 			Tries  int       `json:"tries"`
 			Script [][]reply `json:"script"`
 		}
@@ -655,7 +670,7 @@ func TestLeaseSim(t *testing.T) {
 				Script [][]reply `json:"script"`
 			}{c.Tries, c.Script}
 			if c.Proto == 4 {
-				obs = run4(cc, myid%3 == 0)
+				obs = run4(cc, myid%3 == 0, c.Inform)
 			} else {
 				obs = run6(cc, c.Rapid)
 			}
